@@ -2,12 +2,14 @@
 pub mod broker;
 pub mod broker_mon;
 pub mod broker_run;
+pub mod c02;
 pub mod c05;
 pub mod c09;
 pub mod c15;
 pub mod c20;
 pub mod crc;
 pub mod fakeredis;
+pub mod migsim;
 pub mod prng;
 pub mod report;
 pub mod resp_ref;
